@@ -22,7 +22,7 @@ CLAIMS = {
          "Same stand-in / stub assumptions; the other state fields (assignment_left, slot counter) need the traversal and are not covered."),
  "C13": ("Chain of contracts on the real code: constants; is_jsx_attr_value_constant (sound constness); every arm of transform_attrs' fold and its finalisation block, extracted verbatim, against one shared step contract from an ARBITRARY analysis state (Kani, complete over the abstract domain); then a Verus induction over that contract for attribute lists of ANY length proving the statement's clauses.",
          "Same stand-in / stub assumptions; A-GLUE (the fold applies the arms in order from the declared initial state: checked syntactically by the extractor and, bounded, by whole-function harnesses in the thorough tier); slot-flag stack discipline across nested elements not covered."),
- "C14": ("Contract on Options::default(): the documented defaults. serde's derive semantics (absent = default, unknown keys ignored) and option isolation are not within reach.", "serde derive is an external dependency (assumed)."),
+ "C14": ("Contracts on Options::default() (the documented defaults: complete) and on the private serde visitor RegexVisitor (a pattern is accepted exactly when regex::Regex::new accepts it, so an invalid pattern is rejected while the configuration is read). serde's derive semantics (absent = default, unknown keys ignored) and option isolation are not within reach.", "serde derive is an external dependency (assumed); regex::Regex::new is the stand-in's model (callee contract assumed)."),
  "C15": ("Contracts on get_pragma (precedence comment > option > createVNode import, createVNode imported only when needed: complete) and search_jsx_pragma's comment rule against the spec taken from the statement on 11 comment texts (bounded).",
          "Same stand-in / stub assumptions; comments come from a global-backed Comments stand-in; which comments are scanned (traversal) is not covered."),
  "C17": ("Contract on the real infer_runtime_type for the atom table of the statement: all keyword kinds, literal kinds, 20 built-in names, function/array/tuple/parenthesis, union order, NonNullable (one level).",
